@@ -7,7 +7,14 @@ PairTypes == IF Tier = "thorough" THEN GoTypes ELSE {"Object", "Place", "Link"}
 RECURSIVE ReplyChain(_)
 ReplyChain(n) == IF n = 0 THEN Iri(Base \o "root") ELSE With(BaseV("Object", 1000 + n), "inReplyTo", ReplyChain(n - 1))
 DeepCases == {Case("deep", "Object", "inReplyTo", "depth-" \o ToString(n), ReplyChain(n)) : n \in {50, 120}}
-AllCases == DeepCases \cup OneField(Gob) \cup UntypedOne(Gob) \cup AllTypeNames \cup Nested1 \cup Full(Gob) \cup TopLevel \cup Pairwise(PairTypes, Gob)
+\* an IRI held by pointer (*IRI is an Item like the others: IsIRI and IsNil know it)
+IriPtr(n) == [k |-> "iri", iri |-> Base \o "by-pointer/" \o ToString(n), ptr |-> TRUE]
+IriPtrCases == {Case("iriptr", "IRI", "top", "iri-pointer", IriPtr(0))}
+               \cup UNION {UNION {{Case("iriptr", g, t, "iri-pointer", With(BaseV(g, 1), t, IriPtr(1))),
+                                    Case("iriptr", g, t, "iri-pointer-in-list", With(BaseV(g, 1), t, ListOf(<<I1, IriPtr(2), Note1>>)))}
+                                   : t \in {"attachment", "actor", "object", "inbox", "first", "url"} \cap Terms(Props(g))}
+                            : g \in {"Object", "Activity", "Actor", "OrderedCollection"}}
+AllCases == IriPtrCases \cup DeepCases \cup OneField(Gob) \cup UntypedOne(Gob) \cup AllTypeNames \cup Nested1 \cup Full(Gob) \cup TopLevel \cup Pairwise(PairTypes, Gob)
 ModelUniverse == IF Tier = "thorough" THEN OneField(TRUE) \cup AllTypeNames \cup Nested1 \cup Full(TRUE) \cup TopLevel
                  ELSE {c \in OneField(TRUE) : c.lab.g \in {"Actor", "Question", "Place", "Link", "OrderedCollectionPage"}} \cup Nested1 \cup Full(TRUE) \cup TopLevel
 GenInit == phase = "gen" /\ codec = "json" /\ orig = NilItem /\ val = NilItem
